@@ -2,8 +2,10 @@
 #include "verif.h"
 enum { state_created, state_locked, state_isolated, state_bound, state_dead };   /* order checked by spec.py against task_group.h */
 #define may_have_children 1
-struct tgc { struct tgc *my_parent; uint32_t my_cancellation_requested; uint8_t my_state; uint8_t my_may_have_children; struct { bool bound, fp_settings; } my_traits; };
-struct thread_data { struct tgc *current_context, *default_ctx; };
+struct tgc; struct clist { uintptr_t epoch; int m_mutex; size_t n; struct tgc **items; };
+struct tgc { struct tgc *my_parent; uint32_t my_cancellation_requested; uint8_t my_state; uint8_t my_may_have_children; struct { bool bound, fp_settings; } my_traits; struct clist *my_context_list; };
+struct thread_data { struct tgc *current_context, *default_ctx; struct clist *my_context_list; };
+uintptr_t the_context_state_propagation_epoch; int the_context_state_propagation_mutex;
 #define SPIN_WAIT_WHILE_EQ(loc, v) do { interfere(); __CPROVER_assume((loc) != (v)); } while (0)
 #define P_LOAD(f) (f)
 
@@ -20,9 +22,9 @@ static void STUB_propagate(struct tgc *c, uint32_t s) { g_prop_calls++; }
 #define P_STORE(c, v) ((c)->my_cancellation_requested = (v))
 #define STUB_copy_fp_settings(a, b) ((void)0)
 #define STUB_register_with(a, b) ((void)0)
-#define STUB_list_epoch(p) 0
-#define STUB_global_epoch() 0
-#define STUB_lock_propagation_mutex() ((void)0)
+#define LOCK_MUTEX(m) ((void)0)
+#define UNLOCK_MUTEX(m) ((void)0)
+#define LIST_PUSH_FRONT(l, c) ((void)0)
 #define STUB_bind_to_impl(a, b) ((void)0)
 #define ATOMIC_STORE_AT(site, f, v) ((f) = (v))
 #define ATOMIC_CAS_AT(site, f, e, d) (0)
@@ -51,9 +53,9 @@ static void interfere(void) {}
 #define STUB_propagate(c, s) ((void)0)
 #define STUB_copy_fp_settings(a, b) ((void)0)
 #define STUB_register_with(a, b) ((void)0)
-#define STUB_list_epoch(p) 0
-#define STUB_global_epoch() 0
-#define STUB_lock_propagation_mutex() ((void)0)
+#define LOCK_MUTEX(m) ((void)0)
+#define UNLOCK_MUTEX(m) ((void)0)
+#define LIST_PUSH_FRONT(l, c) ((void)0)
 #define STUB_bind_to_impl(a, b) ((void)0)
 #include "tgc.inc"
 static struct tgc N[DEPTH + 2];
@@ -96,9 +98,9 @@ static void interfere(void) { canceller_steps(false); }
 #define STUB_propagate(c, s) ((void)0)
 #define STUB_copy_fp_settings(a, b) ((void)0)
 static void STUB_register_with(struct tgc *c, struct thread_data *td) { interfere(); reg = true; interfere(); }
-#define STUB_list_epoch(p) nondet_uintptr_t()
-#define STUB_global_epoch() nondet_uintptr_t()
-#define STUB_lock_propagation_mutex() ((void)0)
+#define LOCK_MUTEX(m) ((void)0)
+#define UNLOCK_MUTEX(m) ((void)0)
+#define LIST_PUSH_FRONT(l, c) ((void)0)
 #define STUB_bind_to_impl(a, b) ((void)0)
 #define LOOP_prop_1
 #define LOOP_prop_2
@@ -130,9 +132,9 @@ static void interfere(void) { uint8_t o = X.my_state; X.my_state = nondet_uchar(
 #define STUB_propagate(c, s) ((void)0)
 #define STUB_copy_fp_settings(a, b) ((void)0)
 #define STUB_register_with(a, b) ((void)0)
-#define STUB_list_epoch(p) 0
-#define STUB_global_epoch() 0
-#define STUB_lock_propagation_mutex() ((void)0)
+#define LOCK_MUTEX(m) ((void)0)
+#define UNLOCK_MUTEX(m) ((void)0)
+#define LIST_PUSH_FRONT(l, c) ((void)0)
 static void STUB_bind_to_impl(struct tgc *c, struct thread_data *td) { g_impl_calls++; OBLIGATION(meBinder, "C04.bind: the binding runs only in the thread that won created->locked"); }
 #define LOOP_prop_1
 #define LOOP_prop_2
@@ -147,6 +149,150 @@ void h_bind_to(void) {
     interfere();
     OBLIGATION(X.my_state == state_isolated || X.my_state == state_bound, "C04.bind: bind_to returns only once the context is bound or isolated");
     OBLIGATION(g_impl_calls <= 1 && !meBinder, "C04.bind: the binding runs at most once in this thread and the lock state is left");
+    VACUITY_END();
+}
+#endif
+
+#if defined(DISSEM) || defined(TDWALK)
+/* The propagator.  Lists are represented as index sequences over arrays (members pairwise distinct by construction); mutexes are ghost ints (0 free / 1 held). */
+#define NMAX ((size_t)1 << 12)
+struct tlist { size_t n; struct thread_data *base; };
+struct dissem { int my_threads_list_mutex; struct tlist *my_threads_list; };
+#define LIST_SIZE(l) ((l)->n)
+#define LOCK_MUTEX(m) do { __CPROVER_assert((m) == 0, "C04.walk: the mutex is free when it is taken (no self-deadlock)"); (m) = 1; } while (0)
+#define UNLOCK_MUTEX(m) do { __CPROVER_assert((m) == 1, "C04.walk: only a held mutex is released"); (m) = 0; } while (0)
+#define ATOMIC_XCHG_AT(site, f, v) (0)
+#define ATOMIC_CAS_AT(site, f, e, d) (0)
+#define STUB_propagate(c, s) ((void)0)
+#define STUB_copy_fp_settings(a, b) ((void)0)
+#define STUB_register_with(a, b) ((void)0)
+#define STUB_bind_to_impl(a, b) ((void)0)
+#define LIST_PUSH_FRONT(l, c) ((void)0)
+static void interfere(void) {}
+size_t g_k;
+#endif
+
+#ifdef DISSEM
+/* cancellation_disseminator::propagate_task_group_state: one propagation = [advance the global epoch, then walk EVERY registered thread's list], all of it inside one critical
+   section that (a) keeps the thread list stable and (b) excludes the slow path of bind_to_impl, whose re-copy of the parent's state is only correct once no propagation is in flight. */
+static struct dissem D; static struct tlist TL; int g_bumps, g_walks_k; bool g_walked_any;
+#define LIST_AT(l, i) (&(l)->base[i])
+#define ATOMIC_LOAD_AT(site, f) (f)
+#define ATOMIC_STORE_AT(site, f, v) ((f) = (v))
+#define IN_SECTION (D.my_threads_list_mutex == 1)
+#define ATOMIC_PREINC_AT(site, x) (__CPROVER_assert(IN_SECTION, "C04.walk: the epoch is advanced inside the propagation section"), __CPROVER_assert(!g_walked_any, "C04.walk: the global epoch is advanced BEFORE any thread's list is walked"), g_bumps++, ++(x))
+static void td_propagate(struct thread_data *t, struct tgc *src, uint32_t ns) {
+    __CPROVER_assert(IN_SECTION, "C04.walk: every list walk happens inside the propagation section (the thread list cannot change under the walk)");
+    __CPROVER_assert(BINDER_SLOW_MUTEX == 1, "C04.bind: the whole propagation (epoch advance and every list walk) runs under the mutex that bind_to_impl's slow path takes - otherwise the slow path's re-copy of the parent's state can run while the parent is still unmarked and the child's list was already walked");
+    __CPROVER_assert(g_bumps == 1, "C04.walk: the epoch was advanced exactly once before this walk");
+    g_walked_any = true; if (t == &TL.base[g_k]) g_walks_k++;
+}
+#define LOOP_dis_1 __CPROVER_assigns(it_, g_walks_k, g_walked_any) __CPROVER_loop_invariant(it_ <= TL.n && g_walks_k == (it_ > g_k ? 1 : 0) && g_bumps == 1 && D.my_threads_list_mutex == 1) __CPROVER_decreases(TL.n - it_)
+#define LOOP_prop_1
+#define LOOP_prop_2
+#define P_STORE(c, v) ((c)->my_cancellation_requested = (v))
+#include "dissem.inc"
+void h_dissem(void) {
+    TL.n = nondet_size_t(); __CPROVER_assume(TL.n <= NMAX); TL.base = malloc((TL.n ? TL.n : 1) * sizeof(struct thread_data)); __CPROVER_assume(TL.base != NULL);
+    D.my_threads_list = &TL; D.my_threads_list_mutex = 0; the_context_state_propagation_mutex = 0; g_bumps = 0; g_walks_k = 0; g_walked_any = false;
+    g_k = nondet_size_t(); __CPROVER_assume(g_k < TL.n || TL.n == 0);
+    struct tgc src; src.my_may_have_children = nondet_uchar(); src.my_cancellation_requested = nondet_u32(); uint32_t ns = nondet_u32(); uintptr_t e0 = the_context_state_propagation_epoch = nondet_uintptr_t();
+    bool r = dissem_propagate(&D, &src, ns);
+    OBLIGATION(D.my_threads_list_mutex == 0 && the_context_state_propagation_mutex == 0, "C04.walk: every mutex is released on every path");
+    if (src.my_may_have_children != may_have_children) OBLIGATION(r && g_bumps == 0 && !g_walked_any, "C04.walk: a context that never had children needs no propagation");
+    else if (src.my_cancellation_requested != ns) OBLIGATION(!r && g_bumps == 0 && !g_walked_any, "C04.walk: a propagator whose source state was changed meanwhile backs down without touching anything");
+    else { OBLIGATION(r && g_bumps == 1 && the_context_state_propagation_epoch == e0 + 1, "C04.walk: one propagation advances the global epoch exactly once");
+           OBLIGATION(TL.n == 0 || g_walks_k == 1, "C04.walk: EVERY registered thread's context list is walked, exactly once (any number of threads)"); }
+    VACUITY_END();
+}
+#endif
+
+#ifdef TDWALK
+/* thread_data::propagate_task_group_state: under the list's mutex, every context of the list that is a descendant of the source ends marked; only then the list's epoch is synced. */
+static struct clist L; static struct tgc *CT; static bool *g_desc; uint32_t g_ns; uint32_t g_flag0k; bool g_desc_k; int g_syncs;
+#define LIST_AT(l, i) (&CT[i])
+#define P_STORE(c, v) ((c)->my_cancellation_requested = (v))
+#define ATOMIC_LOAD_AT(site, f) (f)
+#define ATOMIC_PREINC_AT(site, x) (++(x))
+#define MARKED_K (!g_desc_k || CT[g_k].my_cancellation_requested == g_ns)
+#define ATOMIC_STORE_AT(site, f, v) do { __CPROVER_assert(L.m_mutex == 1, "C04.walk: the list epoch is synced while the list mutex is still held"); \
+    __CPROVER_assert(MARKED_K, "C04.walk: the list epoch is synced only AFTER every descendant in the list has been marked (a binder that reads the synced epoch sees the marks)"); \
+    __CPROVER_assert((v) == the_context_state_propagation_epoch, "C04.walk: the list epoch is synced to the current global epoch"); (f) = (v); g_syncs++; } while (0)
+/* contract of task_group_context_impl::propagate_task_group_state (job propagate.path): marks ctx if it descends from src (and ancestors of ctx below src, which descend from src too); touches nothing else */
+static void propagate_task_group_state(struct tgc *c, struct tgc *src, uint32_t ns) {
+    __CPROVER_assert(L.m_mutex == 1, "C04.walk: contexts are examined under the list mutex (registration cannot interleave)");
+    size_t i = (size_t)(c - CT); if (g_desc[i]) c->my_cancellation_requested = ns;
+    if (g_desc_k && nondet_bool()) CT[g_k].my_cancellation_requested = ns;
+}
+#define LOOP_tdp_1 __CPROVER_assigns(it, __CPROVER_object_whole(CT)) __CPROVER_loop_invariant(it <= L.n && L.m_mutex == 1 && g_syncs == 0 && (it > g_k ? MARKED_K : 1) && (g_desc_k ? (CT[g_k].my_cancellation_requested == g_flag0k || CT[g_k].my_cancellation_requested == g_ns) : CT[g_k].my_cancellation_requested == g_flag0k)) __CPROVER_decreases(L.n - it)
+#include "tdwalk.inc"
+void h_tdwalk(void) {
+    L.n = nondet_size_t(); __CPROVER_assume(L.n >= 1 && L.n <= NMAX); CT = malloc(L.n * sizeof(struct tgc)); g_desc = malloc(L.n * sizeof(bool)); __CPROVER_assume(CT && g_desc);
+    L.m_mutex = 0; L.epoch = nondet_uintptr_t(); the_context_state_propagation_epoch = nondet_uintptr_t(); g_syncs = 0;
+    g_k = nondet_size_t(); __CPROVER_assume(g_k < L.n); g_ns = nondet_u32(); g_flag0k = CT[g_k].my_cancellation_requested; g_desc_k = g_desc[g_k];
+    struct thread_data td; td.my_context_list = &L; struct tgc src;
+    td_propagate(&td, &src, g_ns);
+    OBLIGATION(L.m_mutex == 0, "C04.walk: the list mutex is released");
+    OBLIGATION(MARKED_K, "C04.walk: every context of the list that descends from the source is marked (any list length)");
+    OBLIGATION(g_desc_k || CT[g_k].my_cancellation_requested == g_flag0k, "C04.walk: a context that does not descend from the source is left alone");
+    OBLIGATION(g_syncs == 1 && L.epoch == the_context_state_propagation_epoch, "C04.walk: the list's epoch is synced with the global one, once");
+    VACUITY_END();
+}
+#endif
+
+#ifdef BINDGA
+/* bind_to_impl, parent WITH a grand-ancestor: speculative copy validated by the epoch counters, slow path under a mutex.  The binder's real code runs against ONE propagation
+   started by a cancel of an ancestor G of the parent P; the propagator's steps are the contract proved in dissem.protocol / td.walk (epoch advance first, then every list once:
+   marks under the list mutex, epoch sync after the marks).  Lists: LP holds P, LB is the binder's own (they may be the same list). */
+static struct tgc G, Other, P, C; static struct clist LP_, LB_; struct clist *LP, *LB; bool desc, reg, binder_holds;
+int pi_phase; bool markedP, syncedP, markedB, syncedB;     /* 0 not started, 1 in flight, 2 complete */
+static void walk_marks(struct clist *l) {                   /* one list walk: everything registered in the list that descends from G gets marked (the chain up to G) */
+    if (l == LP && desc) P.my_cancellation_requested = 1;
+    if (l == LB && reg && C.my_parent == &P && desc) { C.my_cancellation_requested = 1; P.my_cancellation_requested = 1; }
+}
+static void pi_step(void) {
+    if (pi_phase == 0) { if (PROP_HOLDS_BINDER_MUTEX && binder_holds) return; G.my_cancellation_requested = 1; the_context_state_propagation_epoch++; pi_phase = 1; return; }
+    if (pi_phase != 1) return;
+    bool pickP = nondet_bool();
+    if (LP == LB) { if (!markedP) { walk_marks(LP); markedP = markedB = true; } else if (!syncedP) { LP->epoch = the_context_state_propagation_epoch; syncedP = syncedB = true; } }
+    else if (pickP ? !syncedP : syncedB) { if (!markedP) { walk_marks(LP); markedP = true; } else if (!syncedP) { LP->epoch = the_context_state_propagation_epoch; syncedP = true; } }
+    else { if (!markedB) { walk_marks(LB); markedB = true; } else if (!syncedB) { LB->epoch = the_context_state_propagation_epoch; syncedB = true; } }
+    if (syncedP && syncedB) pi_phase = 2;
+}
+static void interfere(void) { if (binder_holds && PROP_HOLDS_BINDER_MUTEX && pi_phase == 1) return; for (int i = 0; i < 5; ++i) if (nondet_bool()) pi_step(); }
+#define ATOMIC_LOAD_AT(site, f) ({ interfere(); (f); })
+#define ATOMIC_STORE_AT(site, f, v) do { uint32_t v_ = (v); interfere(); (f) = v_; } while (0)
+#define ATOMIC_XCHG_AT(site, f, v) (0)
+#define ATOMIC_CAS_AT(site, f, e, d) (0)
+#define STUB_propagate(c, s) ((void)0)
+#define STUB_copy_fp_settings(a, b) ((void)0)
+#define STUB_bind_to_impl(a, b) ((void)0)
+/* the slow-path mutex: blocks while a propagation that holds the same mutex is in flight, and keeps a new one from starting */
+#define LOCK_MUTEX(m) do { interfere(); __CPROVER_assume(!(PROP_HOLDS_BINDER_MUTEX && pi_phase == 1)); binder_holds = true; } while (0)
+#define UNLOCK_MUTEX(m) do { binder_holds = false; interfere(); } while (0)
+#define LIST_PUSH_FRONT(l, c) do { __CPROVER_assert((l) == LB && (c) == &C, "C04.bind: the context is registered in the binding thread's list"); reg = true; } while (0)
+void register_with(struct tgc *ctx, struct thread_data *td);
+#define STUB_register_with(c, td) do { interfere(); register_with((c), (td)); interfere(); } while (0)
+#define LOOP_prop_1
+#define LOOP_prop_2
+#define P_STORE(c, v) ((c)->my_cancellation_requested = (v))
+#include "tgc.inc"
+void h_bind_ga(void) {
+    LP = &LP_; LB = nondet_bool() ? &LP_ : &LB_;
+    struct thread_data td; td.current_context = &P; td.default_ctx = NULL; td.my_context_list = LB;
+    desc = nondet_bool(); G.my_parent = NULL; Other.my_parent = NULL; G.my_cancellation_requested = 0; Other.my_cancellation_requested = 0;
+    P.my_parent = desc ? &G : &Other; P.my_context_list = LP; P.my_may_have_children = nondet_uchar(); P.my_cancellation_requested = 0;
+    the_context_state_propagation_epoch = nondet_uintptr_t(); LP->epoch = nondet_uintptr_t(); LB->epoch = nondet_uintptr_t();
+    __CPROVER_assume(the_context_state_propagation_epoch < ((uintptr_t)1 << 62) && LP->epoch <= the_context_state_propagation_epoch && LB->epoch <= the_context_state_propagation_epoch);
+    pi_phase = 0; markedP = syncedP = markedB = syncedB = false; reg = false; binder_holds = false;
+    if (nondet_bool()) { for (int i = 0; i < 5; ++i) pi_step(); __CPROVER_assume(pi_phase == 2); }        /* the propagation may also be long over */
+    C.my_parent = NULL; C.my_cancellation_requested = 0; C.my_state = state_locked; C.my_traits.fp_settings = nondet_bool(); C.my_traits.bound = true; C.my_context_list = NULL;
+    bind_to_impl(&C, &td);
+    for (int i = 0; i < 5; ++i) pi_step();                  /* let the propagation finish */
+    __CPROVER_assume(pi_phase == 2);
+    OBLIGATION(C.my_parent == &P && reg && C.my_context_list == LB && !binder_holds, "C04.bind: the context is attached beneath the running context and registered in the binder's list; the slow-path mutex is released");
+    OBLIGATION(!desc || (P.my_cancellation_requested == 1 && C.my_cancellation_requested == 1), "C04.bind: once the cancel of a grand-ancestor and the binding have both completed, the new context is cancelled like its parent - whatever the interleaving of the propagation with the speculative copy, the registration, the epoch check and the slow path");
+    OBLIGATION(desc || C.my_cancellation_requested == 0, "C04.bind: a context bound beneath a tree that is not cancelled stays uncancelled");
     VACUITY_END();
 }
 #endif
